@@ -727,6 +727,8 @@ def run(ctx) -> None:
     from .c05 import r05_3
     ctx.guard_as("R01.12", r05_3)
     # "every signature present is valid": an object that carries a `signatures` array is read - and verified - as the general syntax
+    from .c19 import r19_2_3 as _r19_2_3
+    ctx.guard_as("R01.17", _r19_2_3)  # "truncating or extending a signature is rejected": the decoder of the signature segment is the strict one (nothing after the padding, no foreign characters)
     from .common import syntax_dispatch
     ctx.guard(syntax_dispatch, "R01.16", "rfc7515.json:extract_general_json", "rfc7515.json:extract_flattened_json", "signatures")
     ctx.assume("pyca/cryptography verify primitives reject every forged signature (unforgeability is trusted)")
